@@ -92,7 +92,9 @@ def runHist (env : Vars) (steps : List Json) : Except String (List Json) := do
         | .error _ =>
           match step.getObjVal? "outdocs" with
           | .ok _ => out := out ++ [resVals (outputDocuments (st.docs.map (·.2)) env)]
-          | .error _ => throw "unknown step"
+          | .error _ =>
+            -- `out` (encoded bytes) and `alias` (heap sharing) have no counterpart in the model
+            out := out ++ [Json.mkObj [("unmodelled", Json.bool true)]]
   pure out
 
 def handle (j : Json) : Except String Json := do
